@@ -411,6 +411,14 @@ def make_scenarios(ctx):
     S.append(Scenario("success:own-header-head-NR", ["--icsv", "--ocsv", "head", "-n", "1", "then", "put", "$nr=NR; $fnr=FNR; $f=FILENAME"], three(), ok3))
     S.append(Scenario("success:begin-end-per-file", ["--icsv", "--ocsv", "put", "-q", "begin{@n=0} @n += 1; end{emit @n}"], three(), ok3))
     S.append(Scenario("success:sort", ["--icsv", "--opprint", "sort", "-nr", "b"], three(), ok3))
+    # --seed: the command line is re-parsed for every file, so the generator is re-seeded per file: each file must equal the run of the
+    # same command (same --seed) on that file ALONE -- random-consuming functions and verbs; two byte-identical inputs included
+    same = csv_file(rng, 5, "s")
+    sd = str(rng.randint(1, 10 ** 6))
+    S.append(Scenario("success:seed-urandint", ["--seed", sd, "--icsv", "--ocsv", "put", "$r = urandint(1, 1000000); $u = urand32()"],
+                      [("a.csv", same, 0o640), ("b.csv", same, 0o600), ("c.csv", csv_file(rng, 4, "t"), 0o644)], ok3))
+    S.append(Scenario("success:seed-shuffle-bootstrap", ["--seed", sd, "--icsv", "--ocsv", "shuffle", "then", "bootstrap", "then", "sample", "-k", "3"],
+                      [("a.csv", csv_file(rng, 7, "u"), 0o640), ("b.csv", same, 0o600), ("c.csv", same, 0o644)], ok3))
     plain = csv_file(rng, 4, "z")
     S.append(Scenario("success:gz-suffix", ["--icsv", "--ocsv", "put", "$d=1"], [("g.csv.gz", gzip.compress(plain, mtime=0), 0o644), ("h.csv", plain, 0o604)],
                       ["Succeeds", "Succeeds"]))
